@@ -24,7 +24,8 @@ CONSTANTS TPS,        \* ticks per second
 VARIABLES clock, file, resp, last, steps
 vars == <<clock, file, resp, last, steps>>
 
-Forms == {"etag", "weak", "listFirst", "listLast", "weakListLast", "star", "lm", "both", "staleEtag", "weakFirstThenTag"}
+Forms == {"etag", "weak", "listFirst", "listLast", "weakListLast", "star", "lm", "both", "bothRev", "staleEtag", "weakFirstThenTag"}
+\* ("bothRev": the same two validators with the date header first - header order must not matter)
 Sec(t) == t \div TPS
 
 Init == /\ clock = 2 * TPS
@@ -58,6 +59,7 @@ TagsSent(j, f) ==
     [] f = "weakListLast" -> <<<<0, 0>>, resp[j].tag>>
     [] f = "weakFirstThenTag" -> <<<<0, 0>>, resp[j].tag>>
     [] f = "both" -> <<resp[j].tag>>
+    [] f = "bothRev" -> <<resp[j].tag>>
     [] f = "staleEtag" -> <<<<0, 0>>>>
     [] OTHER -> <<>>
 HasTags(f) == f \in Forms \ {"lm"}
